@@ -293,6 +293,12 @@ func mgmtExec(t *testing.T, w *traceWriter, conf mgConf, next func(e int) *mgCmd
 					args.FaceId = utils.IdPtr(uint64(9999))
 				case "zero":
 					args.FaceId = utils.IdPtr(uint64(0))
+				case "mgmt": // the internal face management itself listens on (the lowest face id of this node)
+					lo := uint64(1 << 62)
+					for _, f := range face.FaceTable.GetAll() {
+						lo = min(lo, f.FaceID())
+					}
+					args.FaceId = utils.IdPtr(lo)
 				}
 				if args.FaceId != nil {
 					c["faceId"] = *args.FaceId
@@ -604,6 +610,16 @@ func mgMatrix() []*mgCmd {
 		}
 		out = append(out, base("rib", "register")) // the node still serves a valid command
 	}
+	// a route that leads /localhop/nfd to the management face must not open link-local management when it is disabled
+	r1 := base("rib", "register")
+	r1.Name, r1.FaceRole = "/localhop/nfd", "mgmt"
+	r2 := base("rib", "register")
+	r2.Name, r2.Pfx, r2.Local = "/app/z", "localhop", false
+	r3 := base("rib", "register")
+	r3.Name, r3.Pfx = "/app/x/y", "localhop"
+	r4 := base("rib", "unregister")
+	r4.Name, r4.FaceRole = "/localhop/nfd", "mgmt"
+	out = append(out, r1, r2, r3, r4, base("rib", "register"))
 	return out
 }
 
